@@ -138,6 +138,71 @@ func randomCfg(rng *rand.Rand) *Cfg {
 	return cfg
 }
 
+// randomDRACfg: a cluster whose GPUs are DRA devices; every pod asks for one GPU through a ResourceClaim of its own
+// (half of them generated from a template: pod-level claim name != object name); running pods sit on random
+// devices of their node (not the first free ones). No pod is really terminating: a free GPU of the node accounting
+// then is a free device of the DRA manager, so the generator's placement guards stay valid.
+func randomDRACfg(rng *rand.Rand) *Cfg {
+	cfg := &Cfg{Nodes: map[string]NodeCfg{}, Queues: map[string]QueueCfg{}, Jobs: map[string]JobCfg{}, Pods: map[string]PodCfg{},
+		Groups: []string{"g1"}}
+	nn := 2 + rng.Intn(2)
+	type nstate struct {
+		free    []int
+		freeCpu int
+	}
+	ns := map[string]*nstate{}
+	var nodeNames []string
+	for i := 0; i < nn; i++ {
+		name := fmt.Sprintf("n%d", i+1)
+		g := 2 + rng.Intn(3)
+		c := 4000 + 2000*rng.Intn(3)
+		cfg.Nodes[name] = NodeCfg{Gpu: g, Cpu: c, Gmem: 100, Dra: g}
+		st := &nstate{freeCpu: c}
+		for d := 0; d < g; d++ {
+			st.free = append(st.free, d)
+		}
+		ns[name] = st
+		nodeNames = append(nodeNames, name)
+	}
+	cfg.Queues["d1"] = QueueCfg{Parent: ""}
+	var leaves []string
+	for i := 0; i < 2+rng.Intn(2); i++ {
+		q := fmt.Sprintf("q%d", i+1)
+		cfg.Queues[q] = QueueCfg{Parent: "d1"}
+		leaves = append(leaves, q)
+	}
+	nj := 3 + rng.Intn(3)
+	np := 0
+	for j := 0; j < nj; j++ {
+		jn := fmt.Sprintf("j%d", j+1)
+		k := 1 + rng.Intn(3)
+		cfg.Jobs[jn] = JobCfg{Queue: leaves[rng.Intn(len(leaves))], NP: rng.Intn(2), Min: 1 + rng.Intn(k)}
+		for t := 0; t < k && np < 10; t++ {
+			np++
+			pn := fmt.Sprintf("p%02d", np)
+			pc := PodCfg{Job: jn, Kind: "whole", Gpu: 1, Gq: 1000, Cpu: 500 * (1 + rng.Intn(2)), St: "Pending", Groups: []string{}, Ord: np, Dev: -1}
+			if rng.Intn(2) == 0 {
+				pc.Pcn, pc.Claim = "gpu", fmt.Sprintf("%s-gpu-%05d", pn, rng.Intn(100000))
+			} else {
+				pc.Claim = pn + "-claim"
+				pc.Pcn = pc.Claim
+			}
+			if rng.Intn(10) < 6 {
+				n := nodeNames[rng.Intn(len(nodeNames))]
+				st := ns[n]
+				if st.freeCpu >= pc.Cpu && len(st.free) > 0 {
+					i := rng.Intn(len(st.free))
+					pc.St, pc.Node, pc.Dev = "Running", n, st.free[i]
+					st.free = append(st.free[:i], st.free[i+1:]...)
+					st.freeCpu -= pc.Cpu
+				}
+			}
+			cfg.Pods[pn] = pc
+		}
+	}
+	return cfg
+}
+
 type gen struct {
 	r      *Runner
 	rng    *rand.Rand
@@ -416,14 +481,23 @@ func (g *gen) step() bool {
 	return true
 }
 
-func runRandom(config *conf.SchedulerConfiguration, tw *tracefmt.Writer, n int, seed int64, plen, nworlds int) int {
+// runRandom: n programs on nworlds random clusters, plus ndra extra clusters whose GPUs are DRA devices (generated
+// from a random source of their own: the other clusters and their programs do not depend on ndra) with n/nworlds
+// programs each.
+func runRandom(config *conf.SchedulerConfiguration, tw *tracefmt.Writer, n int, seed int64, plen, nworlds, ndra int) (int, int) {
 	rng := rand.New(rand.NewSource(seed))
 	if nworlds > n {
 		nworlds = n
 	}
-	done := 0
-	for wi := 0; wi < nworlds; wi++ {
-		cfg := randomCfg(rng)
+	done, rebuilt := 0, 0
+	for wi := 0; wi < nworlds+ndra; wi++ {
+		var cfg *Cfg
+		if wi < nworlds {
+			cfg = randomCfg(rng)
+		} else {
+			rng = rand.New(rand.NewSource(seed*1000003 + int64(wi)))
+			cfg = randomDRACfg(rng)
+		}
 		w, err := NewWorld(cfg, config)
 		if err != nil {
 			die("world: %v", err)
@@ -432,6 +506,9 @@ func runRandom(config *conf.SchedulerConfiguration, tw *tracefmt.Writer, n int, 
 		cnt := n / nworlds
 		if wi < n%nworlds {
 			cnt++
+		}
+		if wi >= nworlds && cnt == 0 {
+			cnt = 1
 		}
 		for i := 0; i < cnt; i++ {
 			g := &gen{r: r, rng: rand.New(rand.NewSource(rng.Int63())), clean: i%2 == 0}
@@ -455,7 +532,8 @@ func runRandom(config *conf.SchedulerConfiguration, tw *tracefmt.Writer, n int, 
 			}
 			done++
 		}
-		w.Close()
+		r.Close()
+		rebuilt += r.rebuilt
 	}
-	return done
+	return done, rebuilt
 }
